@@ -169,37 +169,37 @@ theorem start_spec (g : GoodChain c ch top) {d : Store} (hd : DiskOK c ch d) (ca
     · intro k _; show d4.getBlock k = _; rw [f2]; exact a2 k
 
 /-- the part of the invariant that concerns the caches -/
-structure CachesOK (ch : PChain) (evs : List Ev) (n : FNode) : Prop where
+structure CachesOK (jk : Bool) (ch : PChain) (evs : List Ev) (n : FNode) : Prop where
   hdrGen : ∀ k sh, (k, sh) ∈ n.hdrCache → ∃ b, ch k = some b ∧ sh = b.sh
-  datGen : ∀ k d, (k, d) ∈ n.datCache → ∃ b, ch k = some b ∧ GoodData b d
+  dat : ∀ k d, (k, d) ∈ n.datCache → (jk = true ∧ Junk ch k d) ∨ DatOK ch evs k d
   hdrSrc : ∀ k, k ∈ keysH n → Ev.hdr k ∈ evs
-  datSrc : ∀ k, k ∈ keysD n → Ev.dat k ∈ evs ∨ (Ev.hdr k ∈ evs ∧ ∃ b, ch k = some b ∧ IsEmpty b)
 
-theorem Safe.caches (hs : Safe c ch h0 evs n) : CachesOK ch evs n := ⟨hs.hdrGen, hs.datGen, hs.hdrSrc, hs.datSrc⟩
+variable {jk : Bool}
 
-theorem cachesOK_empty (ch : PChain) : CachesOK ch [] ({} : FNode) := by
-  refine ⟨?_, ?_, ?_, ?_⟩ <;> intros <;> simp_all [keysH, keysD, keys]
+theorem SafeJ.caches (hs : SafeJ jk c ch h0 evs n) : CachesOK jk ch evs n := ⟨hs.hdrGen, hs.dat, hs.hdrSrc⟩
+
+theorem cachesOK_empty (jk : Bool) (ch : PChain) : CachesOK jk ch [] ({} : FNode) := by
+  refine ⟨?_, ?_, ?_⟩ <;> intros <;> simp_all [keysH, keys]
 
 /-- a node started on a consistent image with good caches satisfies the safety invariant -/
 theorem started_safe {d : Store} {caches : FNode} (hd : DiskOK c ch d) (hst : Started c ch d caches n)
-    (hc : CachesOK ch evs caches) (hge : h0 ≤ recHeight c d)
-    (hsound : ∀ k, h0 < k → k ≤ recHeight c d → Delivered ch evs k) : Safe c ch h0 evs n := by
+    (hc : CachesOK jk ch evs caches) (hge : h0 ≤ recHeight c d)
+    (hsound : ∀ k, h0 < k → k ≤ recHeight c d → Delivered ch evs k) : SafeJ jk c ch h0 evs n := by
   have hh := hst.height
-  refine ⟨hst.alive, by rw [hh]; exact hge, ?_, by rw [hh]; exact hst.st, hst.disk, hst.gen, ?_, ?_, ?_, ?_, ?_, ?_, ?_⟩
+  refine ⟨hst.alive, by rw [hh]; exact hge, ?_, by rw [hh]; exact hst.st, hst.disk, hst.gen, ?_, ?_, ?_, ?_, ?_, ?_⟩
   · rcases hst.disk with ⟨_, h⟩ | ⟨_, h⟩ <;> omega
   · intro k h1 h2
     rw [hh] at h2
     rw [hst.blocks k h2]
     exact hd.blocks k h1 h2
   · rw [hst.hc]; exact hc.hdrGen
-  · rw [hst.dc]; exact hc.datGen
+  · rw [hst.dc]; exact hc.dat
   · unfold keysH; rw [hst.hc]; exact hc.hdrSrc
-  · unfold keysD; rw [hst.dc]; exact hc.datSrc
   · rw [hh]; exact hsound
   · exact hst.wm
 
 /-- the store of a node satisfying the invariant is a consistent image whose stored height is up to date -/
-theorem Safe.diskOK (g : GoodChain c ch top) (hs : Safe c ch h0 evs n) :
+theorem SafeJ.diskOK (g : GoodChain c ch top) (hs : SafeJ jk c ch h0 evs n) :
     DiskOK c ch n.store ∧ recHeight c n.store = n.store.height := by
   have hr : recHeight c n.store = n.store.height := by
     unfold recHeight
@@ -251,7 +251,7 @@ theorem fresh_safe (g : GoodChain c ch top) : Safe c ch (c.initialHeight - 1) []
   rw [h3] at h1
   simp only [Option.some.injEq, Prod.mk.injEq] at h1
   rw [h1.1]
-  exact started_safe (diskOK_empty g) h2 (cachesOK_empty ch) (Nat.le_refl _) (fun k a b => by
+  exact started_safe (diskOK_empty g) h2 (cachesOK_empty false ch) (Nat.le_refl _) (fun k a b => by
     have : recHeight c ({} : Store) = c.initialHeight - 1 := rfl
     omega)
 
@@ -265,13 +265,13 @@ def restart (c : Cfg) (n : FNode) : FNode :=
 
 /-- **A clean restart changes nothing the loop reads**: height, state, caches, seen-sets and every stored
 block up to the chain height are the same, the invariant holds again (for the same delivered events). -/
-theorem restart_spec (g : GoodChain c ch top) (hs : Safe c ch h0 evs n) :
+theorem restart_spec (g : GoodChain c ch top) (hs : SafeJ jk c ch h0 evs n) :
     (∃ ws, start c n.store n = some (restart c n, ws)) ∧
     (restart c n).store.height = n.store.height ∧ (restart c n).lastState = n.lastState ∧
     (restart c n).hdrCache = n.hdrCache ∧ (restart c n).datCache = n.datCache ∧
     (restart c n).seenH = n.seenH ∧ (restart c n).seenD = n.seenD ∧ (restart c n).alive = true ∧
     (∀ k, k ≤ n.store.height → (restart c n).store.getBlock k = n.store.getBlock k) ∧
-    Safe c ch h0 evs (restart c n) := by
+    SafeJ jk c ch h0 evs (restart c n) := by
   obtain ⟨hd, hr⟩ := hs.diskOK g
   obtain ⟨n', ws, h1, h2⟩ := start_spec g hd n
   have e : restart c n = n' := by simp [restart, h1]
@@ -279,5 +279,45 @@ theorem restart_spec (g : GoodChain c ch top) (hs : Safe c ch h0 evs n) :
   refine ⟨⟨ws, h1⟩, by rw [h2.height, hr], by rw [h2.st, hr, hs.st], h2.hc, h2.dc, h2.sH, h2.sD, h2.alive, ?_, ?_⟩
   · intro k hk; exact h2.blocks k (by omega)
   · exact started_safe hd h2 hs.caches (by rw [hr]; exact hs.ge) (fun k a b => hs.sound k a (by omega))
+
+/-! ## the start of the sync loop (/repo 1fa5e4f): `boot` = `start`, then `loopStart` applies what the loaded caches
+already allow -/
+
+theorem loopStart_quiet (hq : Quiet n) : loopStart n = (n, []) := by
+  unfold loopStart; exact trySync_step_none (applyNext_quiet hq)
+
+theorem boot_of_start {d : Store} {caches : FNode} {ws : List SW} (h : start c d caches = some (n, ws)) :
+    boot c d caches = some ((loopStart n).1, ws ++ (loopStart n).2) := by
+  unfold boot; rw [h]
+
+/-- the start of the loop keeps the invariant, applies consecutive blocks of the chain, and leaves nothing applicable -/
+theorem loopStart_safe (g : GoodChain c ch top) (hs : SafeJ jk c ch h0 evs n) :
+    SafeJ jk c ch h0 evs (loopStart n).1 ∧
+    AppliedWrites c ch n.store.height (loopStart n).2 (loopStart n).1.store.height ∧ Quiet (loopStart n).1 :=
+  ⟨(trySync_safe g _ n hs).1, (trySync_safe g _ n hs).2, trySync_quiet g _ n hs (Nat.lt_succ_self _)⟩
+
+/-- with no cached header the start of the loop does nothing (restart after a crash that lost the caches) -/
+theorem loopStart_noHeaders (h : n.hdrCache = []) : loopStart n = (n, []) := by
+  apply loopStart_quiet
+  intro ⟨hk, _⟩
+  simp [keysH, keys, h] at hk
+
+/-- clean stop and restart of the node, including the start of the loop -/
+def reboot (c : Cfg) (n : FNode) : FNode :=
+  match boot c n.store n with
+  | some (n', _) => n'
+  | none => n
+
+/-- a clean restart finds nothing applicable (the node was quiet when it stopped): it is `restart` -/
+theorem reboot_spec (g : GoodChain c ch top) (hs : SafeJ jk c ch h0 evs n) (hq : Quiet n) :
+    (∃ ws, boot c n.store n = some (reboot c n, ws)) ∧ reboot c n = restart c n := by
+  obtain ⟨⟨ws, h1⟩, e1, _, e2, e3, _⟩ := restart_spec g hs
+  have hq' : Quiet (restart c n) := by
+    unfold Quiet keysH keysD at hq ⊢
+    rw [e1, e2, e3]; exact hq
+  have hb := boot_of_start h1
+  rw [loopStart_quiet hq'] at hb
+  have e : reboot c n = restart c n := by simp [reboot, hb]
+  exact ⟨⟨_, by rw [e]; exact hb⟩, e⟩
 
 end Sync
